@@ -634,18 +634,22 @@ theorem addRequest_inv {d : BDir} {anc : List Up} {c c' : Cat} (hc : Inv c)
       try simp only [] at h
       split at h
       · obtain ⟨i, _, h⟩ := bind_ok h
-        obtain ⟨c2, h2, h⟩ := bind_ok h
-        cases h2
-        refine addRequest_tail ?_ rfl h
-        refine hc.updInter _ _ ?_ ?_ ?_
-        · intro x; split <;> rfl
-        · intro x; split <;> rfl
-        · intro x _ ok
-          split
-          · refine ⟨ok.1, ?_⟩
+        split at h
+        · split at h
+          · -- a second Request directive of one method: refused
+            obtain ⟨c2, h2, _⟩ := bind_ok h
+            exact absurd h2 fail_ne_ok
+          · obtain ⟨c2, h2, h⟩ := bind_ok h
+            cases h2
+            refine addRequest_tail ?_ rfl h
+            refine hc.updInter _ _ (fun _ => rfl) (fun _ => rfl) ?_
+            intro x _ ok
+            refine ⟨ok.1, ?_⟩
             intro q hq bb hbb
             cases hq; cases hbb
-          · exact ok
+        · obtain ⟨c2, h2, h⟩ := bind_ok h
+          cases h2
+          exact addRequest_tail hc rfl h
       · obtain ⟨c2, h2, h⟩ := bind_ok h
         cases h2
         exact addRequest_tail hc rfl h
